@@ -9,6 +9,7 @@ from ..mutate import edit_def, replace_expr, replace_stmt
 from ..paths import Path, function_paths
 from ..run import Control
 from ..terms import contains, path_env, show, term
+from ..terms import facts as path_facts
 
 LEVEL = 'other'
 LAND = 'furax.landscapes'
@@ -246,28 +247,67 @@ def run(ctx, ck) -> None:
 
     # ------------------------------------------------------------------ P4
     cov = sl.own.get('get_coverage')
-    ok = False
-    why = 'get_coverage vanished'
-    if isinstance(cov, ast.FunctionDef):
+    if not isinstance(cov, ast.FunctionDef):
+        ck.bad('P4', sl.node, 'get_coverage vanished', instance='hit histogram')
+    else:
         from ..paths import paths_at_defaults
 
+        C = ('var', cov.args.args[0].arg)
+        arg = ('var', cov.args.args[1].arg)
         rets4 = [p for p in paths_at_defaults(cov, 2) if p.exit == 'return']
-        if len(rets4) == 1:
-            e = path_env(rets4[0])
-            C = ('var', cov.args.args[0].arg)
-            arg = ('var', cov.args.args[1].arg)
-            t = term(rets4[0].node.value, e)
-            idx = ('call', ('attr', C, 'world2index'), (('attr', arg, 'theta'), ('attr', arg, 'phi')), ())
-            uniq = ('call', ('attr', ('var', 'jnp'), 'unique'), (idx,), (('return_counts', ('const', 'True')),))
-            ok = (
-                t[0] == 'call' and t[1][0] == 'attr' and t[1][2] == 'reshape' and t[2] == (('attr', C, 'shape'),)
-                and t[1][1][0] == 'call' and t[1][1][1][0] == 'attr' and t[1][1][1][2] == 'add'
-                and t[1][1][1][1] == ('sub', ('attr', ('call', ('attr', ('var', 'jnp'), 'zeros'), (('call', ('var', 'len'), (C,), ()),), (('dtype', ('attr', ('var', 'np'), 'int64')),)), 'at'), ('item', uniq, 0))
-                and t[1][1][2] and t[1][1][2][0] == ('item', uniq, 1)
-            )
-            why = show(t)[:200]
-    ck.expect('P4', ok, cov or sl.node, 'coverage = zeros(len(self)).at[unique indices].add(counts).reshape(shape), indices from world2index(theta, phi)',
-              f'get_coverage is {why}: the hit histogram is not the add-accumulation of the per-index counts over the whole map', instance='hit histogram')
+        verdicts = []
+        for p in rets4:
+            t = term(p.node.value, path_env(p)) if p.node.value is not None else ('const', 'None')
+            verdicts.append(_coverage_form(t, C, arg, [show(f_) for f_ in path_facts(p)]))
+        bad = [w for v, w in verdicts if v == 'bad']
+        unknown = [w for v, w in verdicts if v == 'unknown']
+        main = [w for v, w in verdicts if v == 'ok']
+        if bad:
+            ck.bad('P4', cov, f'get_coverage: {bad[0]}: the hit histogram is not the add-accumulation of the per-index integer counts over the whole map', instance='hit histogram')
+        elif unknown or not main:
+            ck.incomplete('P4', cov, f'get_coverage returns a form the histogram schema does not cover: {(unknown or ["no return"])[0]}', instance='hit histogram')
+        else:
+            ck.ok('P4', cov, 'coverage = zeros(len(self), integer).at[unique indices].add(counts).reshape(shape), indices from world2index(theta, phi)', instance='hit histogram')
+
+
+def _coverage_form(t, C, arg, facts: list[str]) -> tuple[str, str]:
+    """Clause by clause: reshape(shape) of zeros(len(self), integer dtype).at[unique(idx)[0]].add(unique(idx)[1])."""
+    text = show(t)[:200]
+    # an explicitly empty sampling: all-zero integer map
+    if t[0] == 'call' and show(t[1]) == 'jnp.zeros' and t[2] and t[2][0] == ('attr', C, 'shape') and any('size' in f and '0' in f for f in facts):
+        dt = dict(t[3]).get('dtype', t[2][1] if len(t[2]) > 1 else None)
+        if dt is not None and 'int' in show(dt):
+            return 'empty', 'zeros for an empty sampling'
+        return 'bad', f'the coverage of an empty sampling is {text}, not an integer map'
+    if not (t[0] == 'call' and t[1][0] == 'attr' and t[1][2] == 'reshape' and t[2] == (('attr', C, 'shape'),)):
+        return 'unknown', text
+    acc = t[1][1]
+    if not (acc[0] == 'call' and acc[1][0] == 'attr' and acc[1][1][0] == 'sub' and acc[1][1][1][0] == 'attr' and acc[1][1][1][2] == 'at'):
+        return 'unknown', text
+    method = acc[1][2]
+    if method != 'add':
+        return 'bad', f'the counts are written with .at[].{method}(...) instead of being added'
+    buf, where = acc[1][1][1][1], acc[1][1][2]
+    if not (buf[0] == 'call' and show(buf[1]) in ('jnp.zeros', 'np.zeros') and buf[2]):
+        return 'unknown', text
+    if buf[2][0] not in (('call', ('var', 'len'), (C,), ()), ('attr', C, 'size')) and show(buf[2][0]) not in (f'len({C[1]})', f'{C[1]}.size'):
+        return 'unknown', text
+    dt = dict(buf[3]).get('dtype', buf[2][1] if len(buf[2]) > 1 else None)
+    if dt is None or dt == ('const', 'None') or 'int' not in show(dt):
+        return 'bad', f'the histogram buffer {show(buf)} is not an integer array: counts above 2**24 are rounded in single precision'
+    if not (where[0] == 'item' and where[2] == 0 and where[1][0] == 'call' and show(where[1][1]) in ('jnp.unique', 'np.unique')):
+        return 'unknown', text
+    uniq = where[1]
+    if dict(uniq[3]).get('return_counts') != ('const', 'True'):
+        return 'bad', 'jnp.unique is called without return_counts=True'
+    if not (acc[2] and acc[2][0] == ('item', uniq, 1)):
+        return 'bad', f'what is added is {show(acc[2][0]) if acc[2] else "nothing"}, not the counts of the unique indices'
+    idx = ('call', ('attr', C, 'world2index'), (('attr', arg, 'theta'), ('attr', arg, 'phi')), ())
+    src = uniq[2][0] if uniq[2] else None
+    wrapped = src is not None and src[0] == 'call' and show(src[1]) == 'jnp.where' and len(src[2]) == 3 and src[2][2] == idx
+    if src != idx and not wrapped:
+        return 'unknown', text
+    return 'ok', text
 
 
 def _range_mask(t, i, dim) -> bool:
